@@ -269,6 +269,29 @@ pub fn push_cmd(r: &mut Rng, ops: &mut Vec<Vec<Tok>>, c: &[Vec<u8>]) {
 pub fn gen(seed: u64, n: usize, _tier: &str) -> Vec<Case> {
     let mut r = Rng::new(seed);
     let mut cases = vec![];
+    // the generator of `*` against explicit IDs at or ahead of the clock: several explicit IDs within one
+    // millisecond (rising sequence numbers), then bursts of `*`, duplicates and smaller IDs that must be
+    // refused, deletions/trims of the top entry in between, ranges and lengths after every phase
+    for (id, ms) in [&b"9999999999999"[..], b"5000000000000", b"18446744073709551615", b"18446744073709551614"].iter().enumerate() {
+        let mut ops = vec![conn_op(1)];
+        let idf = |seq: u64| -> Vec<u8> { let mut x = ms.to_vec(); x.push(b'-'); x.extend(seq.to_string().bytes()); x };
+        let mut seqs: Vec<u64> = vec![r.below(4)]; for _ in 0..(1 + r.below(3)) { let l = *seqs.last().unwrap(); seqs.push(l + 1 + r.below(7)); }
+        for k in [&b"x1"[..], b"x2"] {
+            for q in &seqs { ops.push(cmd_op(1, &[b"XADD", k, &idf(*q), b"f", b"v"])); }
+            for _ in 0..(1 + r.below(3)) { ops.push(cmd_op(1, &[b"XADD", k, b"*", b"f", b"auto"])); }
+            ops.push(cmd_op(1, &[b"XADD", k, &idf(*seqs.last().unwrap()), b"f", b"dup"]));
+            ops.push(cmd_op(1, &[b"XADD", k, &idf(seqs[0]), b"f", b"old"]));
+            ops.push(cmd_op(1, &[b"XLEN", k])); ops.push(cmd_op(1, &[b"XRANGE", k, b"-", b"+"])); ops.push(cmd_op(1, &[b"XREVRANGE", k, b"+", b"-", b"COUNT", b"2"]));
+            if k == b"x2" { ops.push(cmd_op(1, &[b"XTRIM", k, b"MAXLEN", b"1"])); } else { ops.push(cmd_op(1, &[b"XDEL", k, &idf(*seqs.last().unwrap())])); }
+            ops.push(cmd_op(1, &[b"XADD", k, b"*", b"f", b"after"]));
+            ops.push(cmd_op(1, &[b"XADD", k, &idf(seqs.last().unwrap() + 1), b"f", b"late"]));
+            ops.push(cmd_op(1, &[b"XADD", k, b"*", b"f", b"after2"]));
+            ops.push(cmd_op(1, &[b"XRANGE", k, &idf(0), b"+"])); ops.push(cmd_op(1, &[b"XREAD", b"STREAMS", k, &idf(seqs[0])]));
+        }
+        let mut keys: Vec<&[u8]> = SKEYS.to_vec(); keys.push(STRKEY);
+        dump_ops(1, &keys, &mut ops);
+        cases.push(Case { id: format!("fut-{}", id), ops, outs: vec![] });
+    }
     for id in 0..n {
         let mut ops = vec![conn_op(1)];
         let mut st = GenSt { next_ms: 1, auto_share: *r.pick(&[0u64, 0, 5, 15, 40, 90]), added: vec![] };
